@@ -333,14 +333,25 @@ def build_and_run(ctx, jobs, merge_into=None, compile_fail_is_violation=True):
     uniq = {}
     for j in jobs:
         uniq.setdefault((j.src, tuple(j.flags), tuple(j.defines)), []).append(j)
+    skipped = []
     def comp(group):
         j0 = group[0]
+        if ctx.out_of_time():
+            # global deadline: what has not been started is reported as not covered, never as a failure
+            for j in group:
+                j.exe, j.ok, j.log = None, None, "skipped: deadline"
+                skipped.append(j)
+            return group
         exe = os.path.join(ctx.build, j0.name.replace("/", "_"))
         ok, log = ctx.compile(j0.src, exe, j0.flags, j0.defines)
         for j in group:
             j.exe, j.ok, j.log = exe, ok, log
         return group
     ctx.parallel(comp, list(uniq.values()))
+    if skipped:
+        ctx.cov["jobs_skipped_at_deadline"] = len(skipped)
+        ctx.cov["jobs_total"] = len(jobs)
+    jobs = [j for j in jobs if j.ok is not None]
     runnable = []
     for j in jobs:
         if not j.ok:
